@@ -97,6 +97,72 @@ def shape_rule(repo: Repo, rep: Report, tier: str, fn: Callable[..., Any], rid: 
     return fallback_rule(repo, rep, fold_decides(repo, tier), "the compiled-reader fold", fn, rid, *args, **kw)
 
 
+AREAS = {
+    "struct_rw": ("StructureMetaType._read:", "StructureMetaType._write:"),
+    "layout": ("_calculate_size_and_offsets",),
+    "compiled": ("compiler.py:",),
+}
+
+
+def _clean(repo: Repo, kind: str) -> bool:
+    """The fold of that area interprets the code as it is now *and* finds every case in agreement with its reference."""
+    cache = repo.__dict__.setdefault("_area_clean", {})
+    if kind not in cache:
+        try:
+            if kind == "compiled":
+                f = compiled_fold(repo, "quick")
+            elif kind == "struct_rw":
+                from ..structfold import fold_struct_rw
+
+                folds = repo.__dict__.setdefault("_struct_rw_folds", {})
+                if 2 not in folds:
+                    folds[2] = fold_struct_rw(repo, 2)
+                f = folds[2]
+            else:
+                from ..folds import fold_struct_layout
+
+                f = fold_struct_layout(repo, 2)
+            cache[kind] = f is not None and not f.get("bad") and not f.get("refused")
+        except Exception:  # noqa: BLE001 - a fold that cannot run decides nothing
+            cache[kind] = False
+    return cache[kind]
+
+
+def shape_of(*kinds: str):
+    """Decorator for a rule on the *shape* of the interpreted structure reader / writer, the layout calculators or the source generator: where the
+    fold of that area interprets today's code and finds all its cases in agreement with the reference, a shape failure inside that area is an
+    advisory note (the outcome is decided, the spelling is free), and the rule's instance floors - which count sites a refactoring may move into
+    helpers - are not enforced.  Where the fold is refused or reports a discrepancy, the rule stays fully armed."""
+    import functools
+
+    def deco(fn):
+        @functools.wraps(fn)
+        def wrapper(repo: Repo, rep: Report, rid: str, *a: Any, **kw: Any) -> Any:
+            n_items, n_floors = len(rep.items), len(rep.floors)
+            clean = [k for k in kinds if _clean(repo, k)]
+            res = None
+            try:
+                res = fn(repo, rep, rid, *a, **kw)
+            except AnalysisError as e:
+                if len(clean) != len(kinds):
+                    raise
+                rep.notes.append(f"advisory {rid} (shape; decided by the {' / '.join(kinds)} fold): anchor not found: {e}")
+                if not any(i.rule == rid for i in rep.items[n_items:]):
+                    rep.ok(rid, f"shape:{rid.split('.')[1]}", f"the {' / '.join(kinds)} fold decides", "", nontrivial=False)
+            areas = tuple(x for k in clean for x in AREAS[k])
+            for i in rep.items[n_items:]:
+                if i.rule == rid and not i.ok and areas and any(x in i.construct for x in areas):
+                    rep.notes.append(f"advisory {rid}: {i.construct}: {i.detail[:200]}")
+                    i.ok, i.nontrivial, i.detail = True, False, f"shape differs; every case of the {' / '.join(clean)} fold agrees with the reference"
+            if len(clean) == len(kinds):
+                del rep.floors[n_floors:]
+            return res
+
+        return wrapper
+
+    return deco
+
+
 def fallback_block(repo: Repo, rep: Report, decided: bool, by: str, fn: Callable[..., Any], *args: Any, skip: tuple[str, ...] = (), **kw: Any) -> Any:
     """Like fallback_rule for a function that registers several rules: where a fold of the outcome decides, every rule the block registers becomes
     an advisory (its failures are notes); rules named in ``skip`` are left to the caller."""
